@@ -183,6 +183,10 @@ class Interp:
                 return env[lid]
         if k == "Block" and n.get("expr") is not None and not n["stmts"]:
             return self.cond(n["expr"], env)
+        if k == "Field":
+            lid = K.local_id(n["e"]) if isinstance(n.get("e"), dict) else None
+            if lid is not None and (lid, n.get("name")) in env:
+                return env[(lid, n.get("name"))]
         return atom(cond_key(n))
 
     # ---- Option-valued expressions ----
@@ -223,6 +227,10 @@ class Interp:
                 return self.fresh("result.ok")
             return atom("some:" + cond_key(n))
         if k == "Field":
+            # a field of a struct local built earlier in this function (`let s = S { x: opt, .. }; .. s.x ..`): the field's own formula
+            lid = K.local_id(n["e"]) if isinstance(n.get("e"), dict) else None
+            if lid is not None and (lid, n.get("name")) in env:
+                return env[(lid, n.get("name"))]
             return atom("some:" + cond_key(n))
         if k == "If":
             c = self.cond(n["cond"], env)
